@@ -152,6 +152,10 @@ def execute(scen):
         stack = Stack(sim, scen["devices"])
         stack.add_client(start=False)
         names = set(stack.drivers)
+        v0 = []
+        c01.check_initial_state(stack, v0, facts)
+        for x in v0:
+            viol.append(dict(x, clause="C07.members", detail="(current value at history length 0) " + x["detail"]))
         # what the history says about enable flags, per device instance (independent of the driver objects)
         flags = {}
         for spec in scen["devices"]:
